@@ -658,6 +658,24 @@ def compare(op: str, lhs, rhs) -> T:
     return Cmp(op, d)
 
 
+def upper_bound(g: T, x: T):
+    """b such that, for integer x, `g` is exactly `x <= b`; None if g is not an upper bound on x alone."""
+    if not isinstance(g, Cmp) or g.op not in ("<", "<="):
+        return None
+    try:
+        rest = _poly(add(g.poly, neg(x)))
+    except Exception:
+        return None
+    c = rest.const_value()
+    if c is None:
+        return None
+    c = -c            # x - c' OP 0 with c' = -const
+    if c != int(c):
+        import math
+        return math.floor(c) if g.op == "<=" else math.ceil(c) - 1
+    return int(c) if g.op == "<=" else int(c) - 1
+
+
 def negate(g: T) -> T:
     if isinstance(g, Lit) and isinstance(g.value, bool):
         return FALSE if g.value else TRUE
